@@ -259,6 +259,36 @@ def run(ctx):
         elif name.startswith('tmp'):
             if md.get(jid) not in tmpgot:
                 cm.append({'id': jid, 'pieces': pcs, 'impl': tmpgot, 'model': md.get(jid)})
+    # which label holds which literal: the k-th literal USED by main (in evaluation order) must be the table whose
+    # bytes are that literal's, whatever number it got; fixed programs with 0..12 and 97..101 literals created before
+    # an expression that uses two or three of them
+    link = {}
+    for n in list(range(0, 13)) + [97, 98, 99, 100, 101]:
+        tab = 'const char *tab[%d] = {%s};\n' % (n, ', '.join('"t%d"' % i for i in range(n))) if n else ''
+        link['link_call_%d' % n] = (tab + 'char cc; void show(char *p, char *q) { cc = p[Y]; }\nvoid main() { show("left", "right"); }\n', ['left', 'right'])
+        link['link_three_%d' % n] = (tab + 'char cc; void show3(char *p, char *q, char *r) { cc = p[Y]; }\nvoid main() { show3("one", "two", "three"); }\n',
+                                     ['one', 'two', 'three'])
+        link['link_local_%d' % n] = (tab + 'char cc; void show(char *p, char *q) { cc = p[Y]; }\nvoid main() { char *a = "first"; show(a, "second"); }\n',
+                                     ['first', 'second'])
+    lres = run_ccv(''.join(compile_job(k, v[0], args=['-O0'], want=['vars', 'funcs']) for k, v in link.items()))
+    nlink = 0
+    for (k, (src_, order)), r in zip(link.items(), lres):
+        if r['status'] != 'ok':
+            continue
+        tabs = {v['name']: v['def'][1] for v in r['vars'] if v['name'].startswith('cctmp') and v.get('def')}
+        used = []
+        for f in r['funcs']:
+            if f['name'] == 'main':
+                for l in f['gen']:
+                    m_ = re.fullmatch(r'#<\(?(cctmp\d+)\)?', l[6]) if l[0] == 'I' else None
+                    if m_ and m_.group(1) not in used:
+                        used.append(m_.group(1))
+        got_ = [bytes(b for b in tabs.get(u, []) if b).decode('latin1') for u in used]
+        nlink += 1
+        if got_ != order:
+            viol.append({'why': 'the labels used by the expression hold other literals than the ones written there (in evaluation order)',
+                         'expected': order, 'got': got_, 'labels': used, 'program': src_})
+    ctx.cov['correspondence']['corr-S literal labels'] = {'programs': nlink}
     ctx.cov['programs'] = len(srcs) + len(esc_src)
     ctx.cov['evaluations'] += len(dec_jobs)
     ctx.cov['distinct_nontrivial'] = checked
